@@ -116,7 +116,10 @@ def string_octets(kind, v):
     return v.encode("latin-1")
 
 
-def time_variant(kind, v, rng):
+TIME_FORMS = ["zeros", "comma", "offset", "no-seconds", "no-minutes"]
+
+
+def time_variant(kind, v, rng, form=None):
     """another BER-legal way of writing the same instant as the DER form v ('...Z'): trailing zeros in the fraction, a comma
     as decimal sign, a local time with an offset (X.680 46, 47; excluded by X.690 11.7 / 11.8 for DER only)"""
     import datetime
@@ -127,8 +130,10 @@ def time_variant(kind, v, rng):
     for sep in (".", ","):
         if sep in body:
             body, frac = body.split(sep, 1)
-    form = rng.choice(["zeros", "comma", "offset", "offset", "no-seconds"])
+    form = form or rng.choice(["zeros", "comma", "offset", "offset", "no-seconds", "no-minutes"])
     gen = kind == "GeneralizedTime"
+    if form == "no-minutes" and gen and not frac and body.endswith("0000") and len(body) == 14:
+        return body[:-4] + "Z"
     if form == "zeros" and gen:
         return body + "." + (frac or "0") + "0" * rng.choice([0, 1, 3]) + "Z" if (frac or rng.random() < 0.5) else v
     if form == "comma" and gen and frac:
